@@ -31,7 +31,9 @@ RULE = ("union of five complete lattices: [tableau] fixed-step method x grid (si
         "counts); a case is trivial only for the single-time-point grid")
 RULE_ADDED = ('Added later: stage-2 conformance of every accepted adaptive step, per-step error budgets with the si'
               'gned logarithmic norm, purely relative tolerances, call-order plane in fresh interpreters, mixdt (fl'
-              'oat32 time grid with float64 state: dtype, y[0] == y0 bit for bit, agreement with the float64 grid).')
+              'oat32 time grid with float64 state: dtype, y[0] == y0 bit for bit, agreement with the float64 grid).'
+              ' Round 4: nested plane (the right-hand side calls solve_ivp re-entrantly with the same method and st'
+              'ate size).')
 ASSUMPTIONS = [
     "the right-hand side is evaluated once at the start and then s times per attempted step of rk23/rk45, the last "
     "evaluation being at the end of the step (used only to read accept/reject and step counts from the call log; "
